@@ -984,3 +984,83 @@ func (c *streamCtx) dirC05S() []genCase {
 	}
 	return out
 }
+
+// ---------- C18, controller side: the lock follows the arrival of the capacity ----------
+// An overloaded group whose increase goes through, or fails at each step of either strategy (SetDesiredCapacity refused;
+// CreateFleet refused / answering errors only / instances never ready / the first or the last AttachInstances refused, with the
+// clean-up failing too), with 0-1 tainted nodes that are reused first.  Fleet sizes on both sides of the attach batch of 20.
+func (c *streamCtx) dirC18S() []genCase {
+	out := []genCase{}
+	base := c.base
+	type size struct {
+		U    int
+		pct  int64
+		want int
+	}
+	sizes := []size{{2, 140, 2}, {10, 210, 20}, {10, 245, 25}, {20, 210, 40}}
+	modes := []string{"ok", "fleet refused", "errors only", "never ready", "first attach refused", "last attach refused", "last attach and clean-up refused"}
+	k := 0
+	for si, sz := range sizes {
+		for T := 0; T <= 1; T++ {
+			for mi, m := range modes {
+				k++
+				if !c.thorough && !((si == 1 && (m == "ok" || m == "last attach refused")) || (si+T+mi)%4 == 0) {
+					continue // each fleet case costs >= 1 s of real time
+				}
+				if !c.thorough && si == 3 {
+					continue
+				}
+				s := newSpec(base, nsOffsets[k%3])
+				b := s.group("g1")
+				b.template = "lt-g1"
+				b.o.MaxNodes, b.asgMax = 100, 100
+				for i := 0; i < sz.U; i++ {
+					b.node(i, int64(7200+10*i))
+				}
+				for i := 0; i < T; i++ {
+					b.node(sz.U+i, int64(5000+i), escAge(base, 40))
+				}
+				n := sz.want - T
+				b.aws.FleetInstances = [][]string{mkIDs("i-fl-", n)}
+				last := (n+19)/20 - 1
+				switch m {
+				case "fleet refused":
+					b.aws.FleetFail = true
+				case "errors only":
+					b.aws.FleetInstances, b.aws.FleetErrors = nil, 1
+				case "never ready":
+					b.aws.ReadyAt = 0
+				case "first attach refused":
+					b.aws.AttachFail = []int{0}
+				case "last attach refused":
+					b.aws.AttachFail = []int{last}
+				case "last attach and clean-up refused":
+					b.aws.AttachFail = []int{last}
+					b.aws.TermFail = []int{0}
+				}
+				b.util(sz.pct, 0, true, false)
+				b.done()
+				out = append(out, single(s, fmt.Sprintf("C18 fleet of %d (%d reused first): %s", n, T, m)))
+			}
+		}
+	}
+	for i, m := range []string{"ok", "refused", "refused, one reused first", "dry"} {
+		s := newSpec(base, nsOffsets[i%3])
+		b := s.group("g1")
+		b.node(0, 7200)
+		b.node(1, 7300)
+		switch m {
+		case "refused":
+			b.aws.SetDesiredFail = true
+		case "refused, one reused first":
+			b.aws.SetDesiredFail = true
+			b.node(2, 5000, escAge(base, 40))
+		case "dry":
+			b.o.DryMode = true
+		}
+		b.util(190, 0, true, false)
+		b.done()
+		out = append(out, single(s, "C18 SetDesiredCapacity "+m))
+	}
+	return out
+}
